@@ -12,7 +12,14 @@ class TooManyPaths(Exception):
     pass
 
 
-def paths(f, unroll=1, cap=4000):
+# loop bound of the exhaustive path enumeration: every loop is taken 0..DEPTH times on the enumerated paths.
+# quick tier 1, thorough tier 2 (set by the runner).  Rules must hold on every enumerated path.
+DEPTH = 1
+
+
+def paths(f, unroll=None, cap=20000):
+    if unroll is None:
+        unroll = DEPTH
     out = []
     stack = [(f.entry, [], {})]
     while stack:
